@@ -98,3 +98,7 @@ Fixpoint gmapget (m : list (Z * Z)) (k : Z) : Z :=
   | [] => 0
   | (k', v) :: r => if k' =? k then v else gmapget r k
   end.
+(* l[lo:hi] on lists *)
+Definition gslicel {A} (l : list A) (lo hi : Z) : res (list A) :=
+  if (lo <? 0) || (hi <? lo) || (glenl l <? hi) then Panic
+  else Ok (firstn (Z.to_nat (hi - lo)) (skipn (Z.to_nat lo) l)).
